@@ -239,14 +239,15 @@ class CenteredDifferences(BaseGradientApproximator):
         lower_bounds = lower_bounds[input_indices]
         upper_bounds = upper_bounds[input_indices]
         steps_plus = where(
-            input_perturbations[input_indices, range(n_indices)] >= upper_bounds,
+            input_perturbations[input_indices, range(n_indices)] + step
+            > upper_bounds,
             0,
             step,
         )
         input_perturbations[input_indices, range(n_indices)] += steps_plus
         steps_minus = where(
-            input_perturbations[input_indices, range(n_indices, 2 * n_indices)]
-            <= lower_bounds,
+            input_perturbations[input_indices, range(n_indices, 2 * n_indices)] - step
+            < lower_bounds,
             0,
             -step,
         )
